@@ -4,6 +4,7 @@ package main
 
 import (
 	"fmt"
+	"os"
 	"sync"
 	"time"
 
@@ -21,6 +22,10 @@ func (h *harness) closeRaceCase(name, variant, parkPoint string, parkAfter int) 
 	sim := simfs.New()
 	o := &pogreb.Options{FileSystem: sim}
 	pogreb.VerifSetThresholds(o, 1024, 1, 0.05)
+	double := variant == "background2" // two goroutines call Close at the same time
+	if double {
+		variant = "background"
+	}
 	if variant == "background" {
 		o.BackgroundCompactionInterval = time.Millisecond
 	}
@@ -104,19 +109,40 @@ func (h *harness) closeRaceCase(name, variant, parkPoint string, parkAfter int) 
 			return
 		}
 	case "background":
+		closeDone2 := make(chan error, 1)
+		if double {
+			time.Sleep(20 * time.Millisecond)
+			go func() { closeDone2 <- db.Close() }()
+		}
 		select {
 		case <-closeDone:
 			h.emit("concfail case=%s Close returned while the database's own background compaction was still running (parked at %s): a goroutine started by the database outlives Close", name, parkPoint)
+			close(release)
+			return
+		case <-closeDone2:
+			h.emit("concfail case=%s a second, concurrent Close returned while the database's own background compaction was still running (parked at %s): a goroutine started by the database outlives Close", name, parkPoint)
 			close(release)
 			return
 		case <-time.After(100 * time.Millisecond):
 			checks++
 		}
 		close(release)
+		if double {
+			select {
+			case err := <-closeDone2:
+				checks++
+				if err != nil && err != os.ErrClosed {
+					h.emit("concfail case=%s the second concurrent Close returned %s", name, errStr(err))
+				}
+			case <-time.After(5 * time.Second):
+				h.emit("concfail case=%s deadlock: the second concurrent Close did not return within 5s after the background compaction resumed", name)
+				return
+			}
+		}
 		select {
 		case err := <-closeDone:
 			checks++
-			if err != nil {
+			if err != nil && !(double && err == os.ErrClosed) {
 				h.emit("concfail case=%s Close returned %s", name, errStr(err))
 			}
 		case <-time.After(5 * time.Second):
@@ -144,12 +170,15 @@ func (h *harness) closeRaceCase(name, variant, parkPoint string, parkAfter int) 
 	}
 	db2.Close()
 	h.emit("concsum case=%s variant=%s park=%s checks=%d", name, variant, parkPoint, checks)
+	if double {
+		variant = "background2"
+	}
 	h.stat("closerace." + variant)
 }
 
 func (h *harness) runCloseRaces(seed uint64) {
 	i := 0
-	for _, variant := range []string{"manual", "background"} {
+	for _, variant := range []string{"manual", "background", "background2"} {
 		for _, pt := range []struct {
 			p string
 			n int
